@@ -2,6 +2,7 @@ package main
 
 import (
 	"fmt"
+	"go/token"
 	"go/types"
 	"sort"
 	"strings"
@@ -147,6 +148,12 @@ func ruleOwnMut(p *Prog, r *Reporter) {
 			callees := p.CG().Callees(c)
 			for ai, a := range args {
 				ao := o.origin(a)
+				// a value that is, on some path, the content of a repository package variable (x := param; if x == nil { x = pkgVar })
+				if g := o.repoGlobalLeaf(a, 0); g != nil && !ao.viaToken {
+					if _, already := ao.root.(*ssa.Global); !already {
+						ao = origin{root: g, kind: oVal}
+					}
+				}
 				if ao.kind == oNone || ao.kind == oLocal {
 					continue
 				}
@@ -196,6 +203,17 @@ func ruleOwnMut(p *Prog, r *Reporter) {
 						for _, callee := range callees {
 							if callee.Blocks == nil || !p.isRepoFunc(callee) {
 								bad = "its address is passed to " + calleeName(callee) + " outside the repository, which may write it: package-level mutable state shared by all tokens, authorizers and goroutines"
+							}
+						}
+					}
+				}
+				// a stateful object kept in a package variable of the repository (buffered reader, pool of readers, hash)
+				// and handed, as an interface, to code outside the repository that calls its methods
+				if g, isG := ao.root.(*ssa.Global); bad == "" && isG && g.Pkg != nil && shortNames[g.Pkg.Pkg.Path()] != "" {
+					if _, isI := a.Type().Underlying().(*types.Interface); isI && !isErrorType(a.Type()) {
+						for _, callee := range callees {
+							if (callee.Blocks == nil || !p.isRepoFunc(callee)) && !readOnlyExternal(calleeName(callee)) {
+								bad = "the object held in this package variable is passed to " + calleeName(callee) + " outside the repository, which calls its methods: one stateful object (a buffered reader, a hash, an encoder) is then used by every goroutine that works with a token at the same time"
 							}
 						}
 					}
@@ -426,4 +444,31 @@ func readOnlyExternal(name string) bool {
 		}
 	}
 	return false
+}
+
+// repoGlobalLeaf: v is, on some path, the value loaded from a package-level variable of the repository
+// (followed through phis and interface conversions).
+func (o *ownAnalysis) repoGlobalLeaf(v ssa.Value, depth int) *ssa.Global {
+	if depth > 6 || v == nil {
+		return nil
+	}
+	switch x := v.(type) {
+	case *ssa.Phi:
+		for _, e := range x.Edges {
+			if g := o.repoGlobalLeaf(e, depth+1); g != nil {
+				return g
+			}
+		}
+	case *ssa.MakeInterface:
+		return o.repoGlobalLeaf(x.X, depth+1)
+	case *ssa.ChangeInterface:
+		return o.repoGlobalLeaf(x.X, depth+1)
+	case *ssa.ChangeType:
+		return o.repoGlobalLeaf(x.X, depth+1)
+	case *ssa.UnOp:
+		if g, ok := x.X.(*ssa.Global); ok && x.Op == token.MUL && g.Pkg != nil && shortNames[g.Pkg.Pkg.Path()] != "" {
+			return g
+		}
+	}
+	return nil
 }
